@@ -34,7 +34,7 @@ class C13Kernel(KernelProp):
     n_ops = (8, 30)
     weights = {"new": 10, "enter": 14, "exit": 10, "add": 12, "addf": 8, "getnw": 10, "get": 8, "finish": 1,
                "getall": 4, "addtd": 10, "current": 1, "parent": 0, "spawn": 2, "state": 12}
-    gen_kwargs = {"max_ctx": 6, "malformed": 0.02, "wrong_state": 0.45, "exc_end": 0.5, "td_depth": 1, "p_cancel": 0.1, "p_manual": 0.05, "p_mid": 0.15, "p_defer": 0.3}
+    gen_kwargs = {"max_ctx": 6, "malformed": 0.02, "wrong_state": 0.45, "exc_end": 0.5, "td_depth": 1, "p_cancel": 0.1, "p_manual": 0.05, "p_mid": 0.15, "p_defer": 0.3, "p_comp": 0.2}
     rule = ("the full state x operation matrix (never entered / open / inside a teardown callback / closed after clean, "
             "raising-block, cancelled-block, raising-teardown exits) x (add_resource, add_resource_factory, get_resource, "
             "get_resource_nowait, add_teardown_callback, re-entry, closed flag) on both back-ends (exhaustive, both "
